@@ -23,6 +23,12 @@ use rustc_span::Span;
 use std::collections::HashSet;
 use std::fmt::Write as _;
 
+macro_rules! np {
+    ($e:expr) => {
+        ty::print::with_crate_prefix!(ty::print::with_no_trimmed_paths!($e))
+    };
+}
+
 // ---------------------------------------------------------------- tiny JSON value
 enum V {
     Null,
@@ -105,17 +111,17 @@ impl<'tcx> Cx<'tcx> {
         }
     }
     fn path(&self, did: DefId) -> String {
-        let p = ty::print::with_crate_prefix!(ty::print::with_no_trimmed_paths!(self.tcx.def_path_str(did)));
+        let p = np!((self.tcx.def_path_str(did)));
         self.fix(p)
     }
     fn path_args(&self, did: DefId, args: ty::GenericArgsRef<'tcx>) -> String {
-        let p = ty::print::with_crate_prefix!(ty::print::with_no_trimmed_paths!(self
+        let p = np!((self
             .tcx
             .def_path_str_with_args(did, args)));
         self.fix(p)
     }
     fn ty_str(&self, t: Ty<'tcx>) -> String {
-        let p = ty::print::with_crate_prefix!(ty::print::with_no_trimmed_paths!(format!("{}", t)));
+        let p = np!((format!("{}", t)));
         self.fix(p)
     }
 
@@ -401,7 +407,7 @@ impl<'tcx> Cx<'tcx> {
                                 o.push(("v", V::I(val)));
                             }
                         }
-                        let mut d = self.fix(ty::print::with_crate_prefix!(ty::print::with_no_trimmed_paths!(format!("{}", c.const_))));
+                        let mut d = self.fix(np!((format!("{}", c.const_))));
                         if d.len() > 400 {
                             let mut cut = 400;
                             while !d.is_char_boundary(cut) {
@@ -653,7 +659,7 @@ impl<'tcx> Cx<'tcx> {
             o.push(("impl_self", s(self.ty_str(st))));
             if of_trait {
                 let tr = tcx.impl_trait_ref(parent).instantiate_identity().skip_norm_wip();
-                o.push(("impl_trait", s(self.fix(ty::print::with_crate_prefix!(ty::print::with_no_trimmed_paths!(format!("{}", tr.print_only_trait_path())))))));
+                o.push(("impl_trait", s(self.fix(np!((format!("{}", tr.print_only_trait_path())))))));
             }
         }
         o.push(("arg_count", V::I(body.arg_count as i128)));
@@ -755,8 +761,8 @@ fn dump<'tcx>(tcx: TyCtxt<'tcx>) {
                 let mut o: Vec<(&'static str, V)> = vec![("self", s(cx.ty_str(st)))];
                 if of_trait {
                     let tr = tcx.impl_trait_ref(did).instantiate_identity().skip_norm_wip();
-                    o.push(("trait", s(cx.fix(ty::print::with_crate_prefix!(ty::print::with_no_trimmed_paths!(format!("{}", tr.print_only_trait_path())))))));
-                    o.push(("trait_ref", s(cx.fix(ty::print::with_crate_prefix!(ty::print::with_no_trimmed_paths!(format!("{}", tr)))))));
+                    o.push(("trait", s(cx.fix(np!((format!("{}", tr.print_only_trait_path())))))));
+                    o.push(("trait_ref", s(cx.fix(np!((format!("{}", tr)))))));
                 }
                 let items: Vec<V> = tcx
                     .associated_item_def_ids(did)
@@ -785,6 +791,35 @@ fn dump<'tcx>(tcx: TyCtxt<'tcx>) {
             _ => {}
         }
     }
+    // alias table: visible (re-export) path -> real definition path for items of the extern crate `adlt`
+    let mut aliases: Vec<V> = Vec::new();
+    if is_bin {
+        for &cnum in tcx.crates(()).iter() {
+            if tcx.crate_name(cnum).as_str() != "adlt" {
+                continue;
+            }
+            let mut seen: HashSet<DefId> = HashSet::new();
+            let mut stack: Vec<DefId> = vec![cnum.as_def_id()];
+            while let Some(m) = stack.pop() {
+                for ch in tcx.module_children(m).iter() {
+                    if let Some(did) = ch.res.opt_def_id() {
+                        if did.krate != cnum || !seen.insert(did) {
+                            continue;
+                        }
+                        let vis = ty::print::with_no_trimmed_paths!(tcx.def_path_str(did));
+                        let real = ty::print::with_no_visible_paths!(ty::print::with_no_trimmed_paths!(tcx.def_path_str(did)));
+                        if vis != real {
+                            aliases.push(V::A(vec![s(vis), s(real)]));
+                        }
+                        match tcx.def_kind(did) {
+                            DefKind::Mod | DefKind::Enum | DefKind::Trait => stack.push(did),
+                            _ => {}
+                        }
+                    }
+                }
+            }
+        }
+    }
     let top = V::O(vec![
         ("crate", s(cx.tag)),
         ("rustc", s(rustc_version())),
@@ -793,6 +828,7 @@ fn dump<'tcx>(tcx: TyCtxt<'tcx>) {
         ("adts", V::A(adts)),
         ("impls", V::A(impls)),
         ("consts", V::A(consts)),
+        ("aliases", V::A(aliases)),
     ]);
     let mut out = String::with_capacity(64 << 20);
     top.write(&mut out);
